@@ -277,6 +277,13 @@ impl<'a> RecordIter<'a> {
 // ---- A-enc: UTF-16LE decoding (encoding_rs::UTF_16LE.decode) and Cow<str> (mirror of unit xlsbrec)
 // TRUSTED: A-enc -- `dec16` stands for encoding_rs' UTF-16LE decoder; nothing is assumed about it beyond being a function of the bytes.
 pub uninterp spec fn dec16(s: Seq<u8>) -> Seq<char>;
+// TRUSTED: A-enc (as in unit xlsbrec) -- `Encoding::decode` decodes "with BOM sniffing": an input that starts with the BOM of UTF-8,
+// UTF-16LE or UTF-16BE loses it and is decoded in the BOM's encoding; `dec_sniffed` stands for that result (uninterpreted)
+pub uninterp spec fn dec_sniffed(s: Seq<u8>) -> Seq<char>;
+pub open spec fn has_bom(s: Seq<u8>) -> bool {
+    (s.len() >= 2 && s[0] == 0xFF && s[1] == 0xFE) || (s.len() >= 2 && s[0] == 0xFE && s[1] == 0xFF)
+    || (s.len() >= 3 && s[0] == 0xEF && s[1] == 0xBB && s[2] == 0xBF)
+}
 /// the text of a Cow<str>
 pub uninterp spec fn cow_chars(c: Cow<'_, str>) -> Seq<char>;
 // TRUSTED: A-std -- Cow::into_owned returns the owned form of the same text
@@ -312,22 +319,22 @@ impl Utf16LeStandIn {
     // TRUSTED: A-enc
     #[verifier::external_body]
     pub fn decode<'a>(&self, bytes: &'a [u8]) -> (r: (Cow<'a, str>, Encoding, bool))
-        ensures cow_chars(r.0) == dec16(bytes@),
+        ensures cow_chars(r.0) == (if has_bom(bytes@) { dec_sniffed(bytes@) } else { dec16(bytes@) }),
     { unimplemented!() }
 }
 
 //@@ include common/bytes.rs
 
-// TRUSTED: proved in unit xlsbrec (C03,C19.wide_str_err_iff, wide_str_err_shape, wide_str_len, wide_str_text); the requires is the
-// implicit obligation of its first statement `read_u32(buf)` (registered there as a finding of wide_str on a buffer shorter than 4)
+// TRUSTED: proved in unit xlsbrec (C03,C19.wide_str_err_iff, wide_str_err_shape, wide_str_len, wide_str_text).  Its fifth clause
+// (C19.wide_str_text_leading_bom: the same text when the string starts with a byte-order-mark look-alike) is a REGISTERED FINDING there
+// and is therefore NOT assumed here: strings with such a start are outside the functional clauses of this unit (`ws_clean`).
 //@@ fn src/xlsb/mod.rs wide_str external_body ret=r
 //@@ sig
-    requires buf@.len() >= 4,
     ensures
-        r is Err <==> buf@.len() < 4 + 2 * le32(buf@),
+        r is Err <==> (buf@.len() < 4 || buf@.len() < 4 + 2 * le32(buf@)),
         r is Err ==> r->Err_0 is WideStr && *final(str_len) == *old(str_len),
         r is Ok ==> *final(str_len) == 4 + 2 * le32(buf@),
-        r is Ok ==> cow_chars(r->Ok_0) == dec16(buf@.subrange(4, 4 + 2 * le32(buf@))),
+        r is Ok && !has_bom(buf@.subrange(4, 4 + 2 * le32(buf@))) ==> cow_chars(r->Ok_0) == dec16(buf@.subrange(4, 4 + 2 * le32(buf@))),
 //@@ end
 
 //@@ item src/lib.rs enum SheetType
@@ -432,6 +439,9 @@ fn verif_xl_path(target: &String) -> (r: String)
 pub open spec fn ws_ok(p: Seq<u8>, off: int) -> bool { off >= 0 && p.len() >= off + 4 && p.len() >= off + 4 + 2 * le32(p.subrange(off, off + 4)) }
 pub open spec fn ws_end(p: Seq<u8>, off: int) -> int { off + 4 + 2 * le32(p.subrange(off, off + 4)) }
 pub open spec fn ws_text(p: Seq<u8>, off: int) -> Seq<char> { dec16(p.subrange(off + 4, ws_end(p, off))) }
+/// the characters do not start with a byte-order-mark look-alike (such strings are mis-decoded by wide_str / UTF_16LE.decode: finding
+/// C19.wide_str_text_leading_bom of unit xlsbrec; they are outside the functional clauses of this unit)
+pub open spec fn ws_clean(p: Seq<u8>, off: int) -> bool { !has_bom(p.subrange(off + 4, ws_end(p, off))) }
 
 /// a sheet as the workbook declares it
 pub ghost struct SheetDecl { pub name: Seq<char>, pub path: Seq<char>, pub typ: SheetType, pub visible: SheetVisible }
@@ -455,6 +465,7 @@ pub open spec fn folder_type(path: Seq<char>) -> Option<SheetType> {
 /// relationship: outside the property's domain -- C06 only)
 pub open spec fn bundle_wf(p: Seq<u8>, rels: Map<Vec<u8>, String>) -> bool {
     p.len() >= 12 && le32(p.subrange(8, 12)) != 0xFFFF_FFFF && ws_ok(p, 8) && ws_ok(p, ws_end(p, 8))
+    && ws_clean(p, 8) && ws_clean(p, ws_end(p, 8))
     && rel_lookup(rels, vstd::utf8::encode_utf8(ws_text(p, 8))) is Some
 }
 /// the sheet a well-formed BrtBundleSh declares; None: unknown hsState or part folder (the reader must reject)
@@ -752,7 +763,7 @@ pub open spec fn xti_names(p: Seq<u8>, shn: Seq<Seq<char>>) -> Seq<Seq<char>> {
 }
 /// BrtName ([MS-XLSB] 2.4.711): flags u32 @0, chKey u8 @4, itab u32 @5, name XLWideString @9, then the formula: cce u32, rgce[cce]
 pub open spec fn name_wf(p: Seq<u8>) -> bool {
-    ws_ok(p, 9) && p.len() >= ws_end(p, 9) + 4 && p.len() >= ws_end(p, 9) + 4 + le32(p.subrange(ws_end(p, 9), ws_end(p, 9) + 4))
+    ws_ok(p, 9) && ws_clean(p, 9) && p.len() >= ws_end(p, 9) + 4 && p.len() >= ws_end(p, 9) + 4 + le32(p.subrange(ws_end(p, 9), ws_end(p, 9) + 4))
 }
 pub open spec fn name_rgce(p: Seq<u8>) -> Seq<u8> {
     p.subrange(ws_end(p, 9) + 4, ws_end(p, 9) + 4 + le32(p.subrange(ws_end(p, 9), ws_end(p, 9) + 4)))
@@ -847,7 +858,7 @@ pub open spec fn sst_items(s: Seq<u8>, n: nat, acc: Seq<Seq<char>>) -> Sst decre
     else {
         match first_of(s, 0x0013, sst_bounds()) {
             First::Found { at } =>
-                if !ws_ok(rec_payload(at), 1) { Sst::Malformed }
+                if !ws_ok(rec_payload(at), 1) || !ws_clean(rec_payload(at), 1) { Sst::Malformed }
                 else { sst_items(rec_rest(at), (n - 1) as nat, acc.push(ws_text(rec_payload(at), 1))) },
             First::Truncated => Sst::Truncated,
             First::Blocked => Sst::Blocked,
@@ -860,7 +871,7 @@ proof fn lemma_sst_items_step(s: Seq<u8>, n: nat, acc: Seq<Seq<char>>)
         else {
             match first_of(s, 0x0013, sst_bounds()) {
                 First::Found { at } =>
-                    if !ws_ok(rec_payload(at), 1) { Sst::Malformed }
+                    if !ws_ok(rec_payload(at), 1) || !ws_clean(rec_payload(at), 1) { Sst::Malformed }
                     else { sst_items(rec_rest(at), (n - 1) as nat, acc.push(ws_text(rec_payload(at), 1))) },
                 First::Truncated => Sst::Truncated,
                 First::Blocked => Sst::Blocked,
@@ -956,7 +967,7 @@ pub open spec fn styles(s: Seq<u8>, st: StSt) -> Styles decreases s.len() {
                 } else { styles(rec_rest(s), st) },
             StMode::Fmts { left } =>
                 if rec_typ(s) == 0x002C {
-                    if p.len() < 2 || !ws_ok(p, 2) || !fmt_id_ok(le16(p)) { Styles::Malformed }
+                    if p.len() < 2 || !ws_ok(p, 2) || !ws_clean(p, 2) || !fmt_id_ok(le16(p)) { Styles::Malformed }
                     else {
                         styles(rec_rest(s), StSt { custom: st.custom.insert(le16(p) as u16, custom_class(ws_text(p, 2))),
                             mode: if left == 1 { StMode::Top } else { StMode::Fmts { left: (left - 1) as nat } }, ..st })
@@ -987,7 +998,7 @@ proof fn lemma_styles_step(s: Seq<u8>, st: StSt)
                     } else { styles(rec_rest(s), st) },
                 StMode::Fmts { left } =>
                     if rec_typ(s) == 0x002C {
-                        if p.len() < 2 || !ws_ok(p, 2) || !fmt_id_ok(le16(p)) { Styles::Malformed }
+                        if p.len() < 2 || !ws_ok(p, 2) || !ws_clean(p, 2) || !fmt_id_ok(le16(p)) { Styles::Malformed }
                         else {
                             styles(rec_rest(s), StSt { custom: st.custom.insert(le16(p) as u16, custom_class(ws_text(p, 2))),
                                 mode: if left == 1 { StMode::Top } else { StMode::Fmts { left: (left - 1) as nat } }, ..st })
@@ -1303,6 +1314,9 @@ pub open spec fn strs(v: Seq<String>) -> Seq<Seq<char>> { v.map_values(|s: Strin
                         }
 //@@ before /break;/
                     proof { if !bad { lemma_styles_step(cur, st); } }
+//@@ after /let _ = iter\.fill_buffer\(&mut buf\)\?;/
+                    // a record kind the reader does not interpret is passed over whole
+                    proof { lemma_rec_read(h); cur = rec_rest(h); }
 //@@ end
 //@@ fn src/xlsb/mod.rs Xlsb::read_shared_strings props=C19,C03 entry ret=r
 //@@ sig
@@ -1475,12 +1489,26 @@ impl Xlsb<VerifRs> {
 //@@ before /match iter\.read_type\(\)\? \{/
             let ghost h = cur;
             proof { lemma_wb1_step(h, st, rels); lemma_rec_total(h); }
-//@@ after /let _ = iter\.fill_buffer\(&mut buf\)\?;/
+//@@ after /let _ = iter\.fill_buffer\(&mut buf\)\?;/#0of4
                     proof {
                         lemma_rec_read(h);
                         assert(buf@ =~= rec_payload(h));
                         cur = rec_rest(h);
                     }
+//@@ after /let _ = iter\.fill_buffer\(&mut buf\)\?;/#1of4
+                    proof {
+                        // BrtEndBundleShs is a record like any other: its size field (and payload) belong to it
+                        lemma_rec_read(h);
+                        cur = rec_rest(h);
+                    }
+                    //# C03,C16.end_bundle_record_skipped_whole
+                    assert(rec_ok(h) && iter.rem() == rec_rest(h));
+//@@ after /let _ = iter\.fill_buffer\(&mut buf\)\?;/#2of4
+                    // a record kind the reader does not interpret is passed over whole
+                    proof { lemma_rec_read(h); cur = rec_rest(h); }
+//@@ after /let _ = iter\.fill_buffer\(&mut buf\)\?;/#3of4
+                    // a record kind the reader does not interpret is passed over whole
+                    proof { lemma_rec_read(h); cur = rec_rest(h); }
 //@@ after /self\.is_1904 = [^;]*;/
                     proof {
                         lemma_bit0(buf@[0]);
@@ -1513,7 +1541,7 @@ impl Xlsb<VerifRs> {
                                     assert(bundle_wf(pl, rels) ==> hs_visible(le32(pl.subrange(0, 4))) is None);
                                 }
 //@@ before /let typ = match /
-                        proof { axiom_str_ext("worksheets"); axiom_str_ext("chartsheets"); axiom_str_ext("dialogsheets"); }
+                        proof { axiom_str_ext("worksheets"); axiom_str_ext("chartsheets"); axiom_str_ext("dialogsheets"); axiom_str_ext("macrosheets"); }
 //@@ before /return Err\(XlsbError::Unrecognized \{\s*typ: "BoundSheet8:dt"/
                                 // a sheet whose part lies in none of the folders the format defines is rejected -- and only such a sheet
                                 //# C16.sheet_kind_rejected_iff_unknown_folder
@@ -1551,15 +1579,6 @@ impl Xlsb<VerifRs> {
                                 assert(self.sheets@.take(n0) =~= ss_before.take(n0));
                             }
                         }
-//@@ before /break,/
-{ proof {
-                    // BrtEndBundleShs is a record like any other: its size field (and payload) belong to it
-                    cur = rec_rest(h);
-                }
-                //# C03,C16.end_bundle_record_skipped_whole
-                assert(rec_ok(h) && iter.rem() == rec_rest(h));
-//@@ after /=> break/
- }
 //@@ after /let mut defined_names = Vec::new\(\);/
         let ghost c1 = cur;
         let ghost shn = names_of(self.sheets@);
